@@ -125,6 +125,8 @@ bool splinetable<Alloc>::write_key(const char* key, const T& value){
 	if(ss.fail())
 		return(false);
 	std::string valuedata=ss.str();
+	if(valuedata.find('\0')!=std::string::npos) //it would end the stored C string early
+		throw std::runtime_error("Value contains a NUL character and cannot be stored as a FITS keyword");
 	size_t valuelen = valuedata.size() + 1;
 	//For normal (short) keys, we get up to 68 bytes of storage, but for longer keywords
 	//the 'HIERARCH Keyword Convention' kicks in and limits us further
